@@ -9,6 +9,7 @@ ROOT = os.path.dirname(os.path.dirname(os.path.abspath(__file__)))
 HARNESS_PACKAGES = [
     ("router-driver", {}),
     ("macro-driver", {}),
+    ("reactive-driver", {}),
 ]
 
 TB = ("Trusted: Coq 8.16.1 kernel and vm_compute; the hand-written Gallina model is tied to the code only by the "
@@ -39,6 +40,25 @@ CHECKS["C18"] = dict(
           "by a python oracle restating the property."),
     note=TB + "the translator tools/c18_translate.py; the syn->tree conversion in harness/macro-driver; const blocks and nested items are treated as opaque like closures; compound assignment counts as a binary operator.",
     design="5.C18")
+
+RTB = TB + "the verif hook module of sycamore-reactive; slotmap / RefCell / Box<dyn Any> are modelled (fresh ids, explicit state passing), not verified."
+for _pid, _sec, _what in [
+    ("C01", "5.C01", "after every top-level write/batch every live pure tracked-only computation holds what its function yields from the current values (from-scratch re-evaluation)"),
+    ("C02", "5.C02", "per propagation: each computation runs at most once, reads only settled derived values, and re-runs only if one of its previous subscriptions fired"),
+    ("C03", "5.C03", "after each run the subscriptions equal the specification-level tracked reads of that run (untracked forms never subscribe) and every subscriber of a fired node re-runs"),
+    ("C04", "5.C04", "cleanups run at most once and exactly once by root disposal, live nodes = nodes reachable through ownership, no dead subscribers, nothing alive after root disposal"),
+    ("C10", "5.C10", "nothing runs and derived values stay frozen between the markers of an outermost batch; the flush runs each computation at most once and leaves a consistent state"),
+    ("C11", "5.C11", "no runtime panic under a disposal injected at every statement position of every callback/cleanup/batch body, and no corruption of later updates"),
+    ("C16", "5.C16", "every use_context returns the nearest enclosing provision according to a reference walk over the program's scope tree, duplicates panic"),
+]:
+    CHECKS[_pid] = dict(
+        category="other",
+        technique="executable Gallina model of the reactive runtime (Reactive/Interp.v) + differential correspondence against the real runtime + property oracle; theorems in progress",
+        text=("The fuelled big-step Gallina interpreter Reactive/Interp.v mirrors root.rs/node.rs/signals.rs/memos.rs/effects.rs/context.rs; every check run "
+              "evaluates generated scenarios both in the model (vm_compute) and through harness/reactive-driver on the real API and compares the full observation "
+              "logs and graph snapshots (values, liveness, subscription lists, dead subscribers, node counts) line by line; an oracle independent of the model judges "
+              "the implementation's output: " + _what + ". Claimed level is `other` until the Coq theorems for this property are proved."),
+        note=RTB, design=_sec)
 
 NOT_YET = {}
 
